@@ -137,9 +137,17 @@ func readRecordHeaderV4(reader *checksumByteReader) (payloadSizeUncompressed uin
 		return 0, 0, false, err
 	}
 
+	checksumStart := reader.Count()
 	expectedChecksum, err := binary.ReadUvarint(reader)
 	if err != nil {
 		return 0, 0, false, err
+	}
+
+	// the checksum field is the only part of the header that is not covered by the checksum itself: ReadUvarint also
+	// accepts padded (non-minimal) encodings, so a flipped continuation bit would shift the payload by one byte unnoticed
+	if reader.Count()-checksumStart != uvarintLen(expectedChecksum) {
+		return 0, 0, false,
+			fmt.Errorf("%w: checksum [%x] is not minimally encoded", HeaderChecksumMismatchErr, expectedChecksum)
 	}
 
 	if actualChecksum != expectedChecksum {
@@ -148,6 +156,16 @@ func readRecordHeaderV4(reader *checksumByteReader) (payloadSizeUncompressed uin
 	}
 
 	return payloadSizeUncompressed, payloadSizeCompressed, recordNil == 1, nil
+}
+
+// uvarintLen returns the number of bytes binary.PutUvarint uses to encode x.
+func uvarintLen(x uint64) int {
+	n := 1
+	for x >= 0x80 {
+		x >>= 7
+		n++
+	}
+	return n
 }
 
 func allocateRecordBuffer(header *Header, payloadSizeUncompressed uint64, payloadSizeCompressed uint64) (uint64, []byte) {
